@@ -238,6 +238,44 @@ func rawWalk(ctx *model.Context, d types.Dict, vc valueCodec, depth int, out *[]
 	return nil
 }
 
+// rawKeys lists the keys of the written tree in file order, ignoring limits and values.
+func rawKeys(ctx *model.Context, d types.Dict, depth int) ([]string, bool) {
+	if depth > 64 {
+		return nil, false
+	}
+	var out []string
+	if kidsObj, ok := d.Find("Kids"); ok {
+		kids, err := ctx.DereferenceArray(kidsObj)
+		if err != nil {
+			return nil, false
+		}
+		for _, ko := range kids {
+			kd, err := ctx.DereferenceDict(ko)
+			if err != nil || kd == nil {
+				return nil, false
+			}
+			kk, ok := rawKeys(ctx, kd, depth+1)
+			if !ok {
+				return nil, false
+			}
+			out = append(out, kk...)
+		}
+		return out, true
+	}
+	names, err := ctx.DereferenceArray(d["Names"])
+	if err != nil {
+		return nil, false
+	}
+	for i := 0; i+1 < len(names); i += 2 {
+		k, err := rawString(names[i])
+		if err != nil {
+			return nil, false
+		}
+		out = append(out, k)
+	}
+	return out, true
+}
+
 func rawCheck(path, doc string, ref map[string]int) *failure {
 	f, err := os.Open(path)
 	if err != nil {
@@ -266,6 +304,20 @@ func rawCheck(path, doc string, ref map[string]int) *failure {
 	if doc == "EmbeddedFiles" {
 		vc = efCodec{ctx}
 	}
+	// pass A: which keys does the written tree hold at all? (one class for every way of writing a stale tree)
+	want := make([]string, 0, len(ref))
+	for k := range ref {
+		want = append(want, k)
+	}
+	sort.Strings(want)
+	if got, ok := rawKeys(ctx, td, 0); ok {
+		sorted := append([]string(nil), got...)
+		sort.Strings(sorted)
+		if !eqStrings(sorted, want) {
+			return failf("raw-keys-differ-from-map", "written file holds %q, reference map %q", got, want)
+		}
+	}
+	// pass B: structure, limits, order, values
 	var ee []rawEntry
 	if fl := rawWalk(ctx, td, vc, 0, &ee); fl != nil {
 		return fl
@@ -277,11 +329,6 @@ func rawCheck(path, doc string, ref map[string]int) *failure {
 			return failf("raw-keys-not-sorted", "written keys not strictly ascending: %q then %q", ee[i-1].k, e.k)
 		}
 	}
-	want := make([]string, 0, len(ref))
-	for k := range ref {
-		want = append(want, k)
-	}
-	sort.Strings(want)
 	if !eqStrings(keys, want) {
 		return failf("raw-keys-differ-from-map", "written file holds %q, reference map %q", keys, want)
 	}
@@ -298,6 +345,9 @@ func rawCheck(path, doc string, ref map[string]int) *failure {
 func docOpKey(r *result, doc string) {
 	if strings.Contains(r.Key, "value-mismatch") || strings.Contains(r.Key, "present-key-not-found") || strings.Contains(r.Key, "-error") {
 		r.Key = "doc/" + r.Key + "/tree=" + doc
+		if r.start == "reread" {
+			r.Key += "/start=reread" // nodes carry dictionaries read from the file: Remove(xRefTable, ..) deletes objects
+		}
 	}
 }
 
@@ -411,12 +461,22 @@ func runDocOnce(c *seqCase, o obs, scratch string, idx int) *result {
 		fail := func(class, what string) *result {
 			return &result{Key: "doc/written/" + class + tag, What: fmt.Sprintf("round %d: %s", round, what), OpIndex: -1, keyClass: kc}
 		}
+		if os.Getenv("C39_DEBUG") != "" {
+			fmt.Fprintf(os.Stderr, "DEBUG round %d tree before write: %s\n  root.D=%v\n", round, ctx.Names[c.Doc].String(), ctx.Names[c.Doc].D)
+		}
 		if err := writeCtx(ctx, path); err != nil {
 			return fail("write-error", fmt.Sprintf("WriteContextFile: %v", err))
 		}
 		o["doc_writes"]++
 		if f := rawCheck(path, c.Doc, ref); f != nil {
-			return fail(f.Class, "raw re-read: "+f.What)
+			class := f.Class
+			switch class {
+			case "raw-keys-differ-from-map", "raw-limits-mismatch", "raw-keys-not-sorted", "raw-value-mismatch", "raw-tree-missing", "raw-read-error":
+			default:
+				// unreadable values, empty kids, missing limits, ...: one class "the written tree is structurally broken"
+				class = "raw-structure-broken"
+			}
+			return fail(class, "raw re-read ("+f.Class+"): "+f.What)
 		}
 		o["doc_raw_rereads"]++
 		ctx2, err := open(path)
